@@ -129,7 +129,10 @@ KsFunctional == ksbad = {}
 PosOk == (last.ev = "pos" /\ last.o \in Objs /\ ~Ob(last.o).off) =>
            /\ (last.res = "ok" => NEq(last.v, last.pv))
            /\ (~last.fits => last.res = "err")
-C10 == KsFunctional /\ PosOk
+           /\ (last.fitsUp => last.res = "ok")    (* a position that fits the type is reported, not refused *)
+(* the core's own block position (get_block_pos) is the number of keystream blocks generated so far *)
+BposExact == (last.ev = "rem" /\ last.hasb /\ last.o \in Objs /\ ~Ob(last.o).off) => NEq(last.bv, last.bpv)
+C10 == KsFunctional /\ PosOk /\ BposExact
 
 (* C11  exhaustion is an error, never silent reuse *)
 LimitOk == (last.ev = "bytes" /\ last.o \in Objs /\ Ob(last.o).kind \in SeekKinds) =>
@@ -244,7 +247,7 @@ C16 == /\ \A p \in Pairs : LET a == Ob(p[1])  b == Ob(p[2]) IN
        /\ KsFunctional
        /\ last.ev = "clone" => last.res = "ok"
        \* a clone also reports and limits like the original would have (its machine state is a copy)
-       /\ PosOk /\ RemainingExact /\ LimitOk
+       /\ PosOk /\ RemainingExact /\ LimitOk /\ BposExact
 
 (* C17  no leak through Debug / algorithm name / dropped memory *)
 DebugConst == last.ev = "debug" => last.outOk /\ last.res = "ok"
